@@ -6,6 +6,7 @@ pub mod framing;
 pub mod status;
 pub mod call;
 pub mod meta;
+pub mod intercept;
 
 /// Shared event recorder so that events survive a panic or hang of the run.
 #[derive(Clone, Default)]
@@ -24,6 +25,7 @@ pub fn gen(lab: &str, seed: u64, tier: &str) -> Vec<Value> {
         "status" => status::gen(seed, tier),
         "call" => call::gen(seed, tier),
         "meta" => meta::gen(seed, tier),
+        "intercept" => intercept::gen(seed, tier),
         _ => { eprintln!("unknown lab {lab}"); std::process::exit(2) }
     }
 }
@@ -34,6 +36,7 @@ fn run_one(lab: &str, stim: &Value, rec: &Rec) {
         "status" => status::run(stim, rec),
         "call" => call::run(stim, rec),
         "meta" => meta::run(stim, rec),
+        "intercept" => intercept::run(stim, rec),
         _ => { eprintln!("unknown lab {lab}"); std::process::exit(2) }
     }
 }
